@@ -191,7 +191,8 @@ def snapshot(g):
     s.cols = {}
     for c in g.columnlist:
         s.cols[c.name] = (tuple(n.name for n in c.node), tuple((float(n.pos[0]), float(n.pos[1])) for n in c.node),
-                          None if c.surface is None else float(c.surface), float(c.area))
+                          None if c.surface is None else float(c.surface), float(c.area),
+                          (float(c.centre[0]), float(c.centre[1])))
     s.geo_area = sum(abs(shoelace_shifted(v[1])) for v in s.cols.values())
     s.volume, s.colvol = rock_volume(g)
     s.nodes = {n.name: (float(n.pos[0]), float(n.pos[1])) for n in g.nodelist}
@@ -275,6 +276,12 @@ def compare(before, g, opname, rng, npts=6, lattice=0):
         if so != sn:
             fail('surface', 'new column %r has surface %r, the old column %r containing it had %r' % (n, sn, o, so), 'surface inherited')
     for o in gone:
+        # are the hypotheses of the orientation theorem met by this parent?  (strictly convex,
+        # counter-clockwise, centre strictly inside)
+        opoly = before.cols[o][1]; cen = before.cols[o][4]; m = len(opoly)
+        cv = all(shoelace_shifted([opoly[i], opoly[(i + 1) % m], opoly[(i + 2) % m]]) > 0 for i in range(m))
+        ci = all(shoelace_shifted([opoly[i], opoly[(i + 1) % m], cen]) > 0 for i in range(m))
+        st['parents_convex_centre_inside' if (cv and ci) else 'parents_other'] = st.get('parents_convex_centre_inside' if (cv and ci) else 'parents_other', 0) + 1
         ks = kids.get(o, [])
         if not ks:
             fail('tiling', 'replaced column %r contains no new column' % o, 'new columns tile the old ones'); continue
@@ -457,5 +464,13 @@ def check_case(case):
         span = abs(b[0][2] - b[-1][1]) or 1.0
         if len(got) != len(exp) or any(abs(x - y) > 1e-9 * span for x, y in zip(got, exp)):
             F.append({'key': 'refine_layers:layers', 'observed': 'layer bottoms %s' % got, 'required': 'layer bottoms %s' % exp})
+    if op['name'] == 'refine_layers' and F:
+        names = [l.name for l in g.layerlist]
+        if len(set(names)) < len(names):
+            # input class: the atmosphere layer's name is one the renumbering generates for a rock layer
+            dup = sorted(set(n for n in names if names.count(n) > 1))
+            for f in F:
+                f['key'] = 'refine_layers:duplicate-layer-name'
+                f['observed'] = 'layer names after the operation %s contain duplicates %s (atmosphere layer %r); %s' % (names[:6], dup, names[0], f['observed'])
     res['failures'] = F; res['stats'] = st
     return res
